@@ -510,12 +510,39 @@ def r10_no_judgement_on_the_destination(ctx):
                    "are never dialled although they were requested like any other", path=None if ok else render_path(rb, p)[:12])
 
 
+def r11_resolvers_consult_the_same_sources(ctx):
+    """the resolver built for operator-supplied DNS servers answers from the same sources as the system resolver it replaces —
+    the hosts file first: no code switches `use_hosts_file` off (a name the operator pinned in /etc/hosts would be resolved
+    upstream and dialled at another machine's address as soon as custom servers are configured)"""
+    bad = []
+    n = 0
+    for key, body in ctx.P.scan():
+        if not key.startswith("util::dns_cache::"):
+            continue
+        n += 1
+        for bi in sorted(body.reachable()):
+            for st in body.blocks[bi]["stmts"]:
+                if st["s"] == "assign" and st["place"]["proj"] and st["place"]["proj"][-1].get("p") == "field" and st["place"]["proj"][-1].get("name") in ("use_hosts_file", "ip_strategy", "ndots", "num_concurrent_reqs") \
+                        and st["place"]["proj"][-1].get("name") == "use_hosts_file":
+                    rv = st["rv"]
+                    val = rv.get("op", {}).get("c", {}).get("disp") if rv.get("r") == "use" else None
+                    if str(val) != "true":
+                        bad.append((key, st["span"]["line"]))
+    ctx.floor("R07.11", "bodies of util::dns_cache examined", n, 3)
+    ctx.ob("R07.11", "dns_cache:custom-resolver-honours-the-hosts-file", not bad, "src/util/dns_cache.rs:%s" % bad[0][1] if bad else "",
+           "no resolver option that changes where names are looked up is altered" if not bad else
+           "%s switches `use_hosts_file` off for the custom-server resolver: with DNS servers configured, a name pinned in /etc/hosts is resolved upstream and the connection goes to another machine than "
+           "without them" % ctx.P.owner(bad[0][0]).split("::")[-1])
+
+
 def run(ctx):
     r10_no_judgement_on_the_destination(ctx)
     from . import effects
     effects.check_property(ctx, "C07")    # R07.E: no operation on shared protocol state outside the reviewed table
     from . import C17
     C17.r6_target_derivation(ctx)    # the HTTP front-end: which host:port a request names (absolute form, Host header, default ports)
+    C17.r10_no_test_that_cannot_match(ctx)   # the explicit port of an authority is used: no branch that extracts it is dead by construction
+    r11_resolvers_consult_the_same_sources(ctx)
     C17.r7_parsing_totality(ctx)
     from . import C16 as _C16d
     _C16d.r3_reads(ctx)              # the SOCKS5 greeting is consumed exactly (NMETHODS bytes): what follows it — the request naming the destination — is not swallowed
